@@ -172,6 +172,22 @@ fn gen_case(rng: &mut Rng) -> (u64, Vec<Op>) {
     let sizes = [0, 1, 1, 2, cap / 2, cap / 2 + 1, cap - 1, cap, cap + 1];
     let n = 3 + rng.below(13);
     let mut ops = vec![];
+    if rng.chance(1, 50) {
+        // recency family (C07 "a lookup counts as use and recency survives a restart"): timed history of small stores and lookups of
+        // *present* keys, then a reopen (mtime order must be the use order), then a store that needs space (evicts the true LRU entry)
+        ops.push(Op::Slow);
+        let nk = 2 + rng.below(NKEYS - 1); let mut present: Vec<u64> = vec![];
+        for k in 0..nk { if rng.chance(1, 3) { ops.push(Op::Prep(k, 1)); } else { ops.push(Op::Ins(k, 1)); } present.push(k); }
+        // two-phase stores of this family are completed at once (handles are numbered in order of prepare)
+        let mut out = vec![Op::Slow]; let mut h = 0u64;
+        for o in ops.drain(1..) { match o { Op::Prep(k, n) => { out.push(Op::Prep(k, n)); out.push(Op::Write(h, 1)); out.push(Op::Commit(h)); h += 1; } x => out.push(x) } }
+        for _ in 0..1 + rng.below(3) { out.push(Op::Get(*rng.pick(&present))); }
+        out.push(Op::Reopen);
+        if rng.chance(1, 2) { out.push(Op::Get(*rng.pick(&present))); }
+        out.push(Op::Ins(NKEYS - 1, cap - 1));
+        if rng.chance(1, 2) { out.push(Op::Reopen); }
+        return (cap, out);
+    }
     if rng.chance(1, 12) { ops.push(Op::Slow); }
     let mut handles = 0u64;
     for _ in 0..n {
